@@ -184,6 +184,7 @@ class Exec:
                     open(n, "wb").write(data)
 
             crash.crash_points(self.DI, lambda: orig(peer), inspect)
+            crash.crash_points(self.DI, lambda: orig(peer), inspect, buffered=True)
         with env.quiet():
             orig(peer)
         rows = self.read_file()
